@@ -114,7 +114,12 @@ func ZZ_C05_many(a []int) {
 		body = zzRefBody(func() *zzAbs { x := *abs; x.hflags = 0; x.pid = 0; return &x }())
 		n = len(body)
 	}
-	zzSetBudget(zzStepsPerByte*(n+4), zzAllocPerByte*(n+4)+zzAllocFixed)
+	steps := zzStepsPerByte * (n + 4)
+	if n > 4096 {
+		// long fields are moved by bulk copies: the per-byte work is small
+		steps = zzStepsPerByte*4100 + 40*n
+	}
+	zzSetBudget(steps, zzAllocPerByte*(n+4)+zzAllocFixed)
 	err := p.UnmarshalBinary(body)
 	zzBudgetCheck()
 	zzReach("many")
